@@ -62,6 +62,30 @@ func genScenario(r *lib.Rng, cp int, i int) Case {
 		g.send(w2, maxMessage+1) // one byte more: the WRITER is dropped, nobody receives it
 		g.send(w1, 126)
 		g.send(w1, 1<<20)
+	case i%8 == 6 && cp <= 8:
+		c.Kind = "zombie"
+		// a stalled connection with read and write scope is dropped for its full queue; its writer is
+		// still blocked on the socket, so its reader is still served by the relay: what it sends now is
+		// still relayed (the hub only looks at the sender's name and topic)
+		w := g.join(rw, false)
+		z := g.join(rw, true)
+		g.join([]string{"read"}, false)
+		g.send(w, 125)
+		g.send(z, 126)
+		g.ops = append(g.ops, Op{K: "stall", N: z})
+		for k := r.Range(9, 12); k > 0; k-- {
+			g.send(w, 1<<20)
+		}
+		for k := cp + 3; k > 0; k-- {
+			g.send(w, smallSizes[r.Intn(len(smallSizes))])
+		}
+		for k := r.Range(1, 4); k > 0; k-- {
+			g.send(z, smallSizes[r.Intn(len(smallSizes))])
+			g.ops[len(g.ops)-1].NoPing = true
+		}
+		g.send(w, 125)
+		g.ops = append(g.ops, Op{K: "unstall", N: z})
+		g.send(w, 126)
 	case i%4 == 3:
 		c.Kind = "storm"
 		// writers send back to back and concurrently, without waiting for the relay in between: the
@@ -190,8 +214,8 @@ func genScenario(r *lib.Rng, cp int, i int) Case {
 			default:
 				n = r.Range(0, 3)
 			}
-			if n > 300 {
-				n = 300
+			if n > 1100 {
+				n = 1100
 			}
 			for k := 0; k < n; k++ {
 				g.send(ws[r.Intn(len(ws))], smallSizes[r.Intn(len(smallSizes))])
